@@ -9,6 +9,7 @@ All theorems hold for every configuration and every reachable state (= every fin
 accepts: any number of callers, partitions, batch settings, faults, retries, timer firings, Close).
 -/
 import KafkaVerif.Lemmas.WriterCalls
+import KafkaVerif.Gen.WriterConsts
 
 namespace KV.C07
 open KV KV.Writer
@@ -86,6 +87,27 @@ theorem put_inside_section (cfg : Cfg) (s s' : State) (pw : Nat) (P : PW) (hP : 
     repeat' split at hs
     all_goals (first | (cases hs; done) | skip)
     rename_i hg; exact hg.1
+
+/-! ### atomicity of the events = the lock brackets in the source (regenerated on every run) -/
+
+/-- which mutex must be held at every site of these event hooks / queue hand-overs -/
+def requiredLocks : List (String × String) :=
+  [ ("W.Enter", "Writer.mutex"), ("W.Batch", "Writer.mutex"), ("W.Batched", "Writer.mutex"), ("W.NewPW", "Writer.mutex"),
+    ("W.CloseBegin", "Writer.mutex"), ("W.CloseMarked", "Writer.mutex"),
+    ("PW.NewBatch", "partitionWriter.mutex"), ("PW.Add", "partitionWriter.mutex"), ("PW.Detach", "partitionWriter.mutex"),
+    ("B.TimerFire", "partitionWriter.mutex"), ("call:queue.Put", "partitionWriter.mutex"), ("call:queue.Close", "partitionWriter.mutex"),
+    ("Q.Put", "batchQueue.cond.L"), ("Q.Get", "batchQueue.cond.L"), ("Q.Close", "batchQueue.cond.L") ]
+
+def sectionsOk (table : List (String × String × List String)) : Bool :=
+  requiredLocks.all (fun (k, l) => table.any (fun site => site.1 == k) && table.all (fun site => site.1 != k || site.2.2.contains l)) &&
+  -- the only rejection decided inside batchMessages (Writer closed) is decided under w.mutex
+  table.all (fun site => !(site.1 == "W.Reject" && site.2.1 == "Writer.batchMessages") || site.2.2.contains "Writer.mutex")
+
+/-- **events_inside_their_sections** — in the source as it stands, every hook of an event the model treats as part of a
+w.mutex / ptw.mutex / queue-lock critical section is syntactically inside that lock's bracket, and every hand-over of a
+batch to the queue (`queue.Put`, `queue.Close`) happens with the partition mutex held — the structural fact behind
+`put_inside_section` and behind taking each event as atomic. -/
+theorem events_inside_their_sections : sectionsOk Gen.hookLocks = true := by decide
 
 /-- **copies_are_whole_batches** — an applied produce attempt appends exactly the messages of the batch being
 sent, in batch order, to the log of that batch's topic-partition, and nothing else changes in any log. -/
